@@ -56,6 +56,19 @@ def is_prime(n):
     return True
 
 
+def pow_expect(v, w):
+    """Field::pow / pow_vartime with exponents of 1, 4, 5 and 8 limbs taken from w's bytes (see the driver op)"""
+    wb = to32(w)
+    l = lambda i: le(wb[8 * (i % 4):8 * (i % 4) + 8])
+    es = [[l(0)], [l(0), l(1), l(2), l(3)], [l(0), l(1), l(2), l(3), l(0) & 0xffff], [l(i) for i in range(8)]]
+    out = []
+    for e in es:
+        ev = sum(x << (64 * i) for i, x in enumerate(e))
+        r = to32(pow(v, ev, L)).hex()
+        out += [r, r]
+    return ','.join(out)
+
+
 def consts_expect(toks):
     fs = factor_check()
     mod = int(toks[0], 16)
@@ -127,7 +140,8 @@ def scalars(ctx, n):
         w = vals.canon_scalar(rng)[1]
         ctx.add('gp.field_ops', cs(v), cs(w),
                 expect=[to32(v * v % L).hex(), to32(2 * v % L).hex(), to32(pow(v, 3, L)).hex(), B(v == 0), B(v == 0), B(v & 1),
-                        B(not v & 1), to32((v + w) % L).hex(), to32(v * w % L).hex(), to32(pow(v, 5, L)).hex()], cls='field-ops')
+                        B(not v & 1), to32((v + w) % L).hex(), to32(v * w % L).hex(), to32(pow(v, 5, L)).hex(),
+                        pow_expect(v, w)], cls='field-ops')
         if rng.random() < 0.3:
             # sqrt_ratio(num, div): (true, sqrt(num/div)) if square ...
             d = rng.choice([0, w])
